@@ -4,6 +4,7 @@ import PygVerif.Model.Proto
 import PygVerif.Model.Doc
 import PygVerif.Model.Listing
 import PygVerif.Model.Skel
+import PygVerif.Model.Umn
 /-!
 # Driver — line protocol between the Python harness and the executable model
 
@@ -70,6 +71,29 @@ def decPop (s : String) : List (Str × PopInfo) :=
       some (decStr sel, { stat := { kind := decKind k, size := sz.toNat!, mtime := mt.toNat!, ctime := ct.toNat! },
                           guess := (decOpt gm, decOpt ge), gtype := decStr gt, sidecars := decSidecars sc })
     | _ => none
+
+def decLines (s : String) : Option (List Str) :=
+  if s == "!" then none else if s == "~" then some [] else some ((s.splitOn "|").map decStr)
+
+/-- `name;isDir;kind;popfields(8, '/'-separated);nameOverride;stripped;cap;lines`
+    kind: `!` unservable, `F` FileHandler entry, `O` other handler entry (both built by populate) -/
+def decChild (base : Str) (r : String) : Option Child :=
+  match r.splitOn ";" with
+  | [nm, isd, kind, pop, nover, stripped, cap, lines] =>
+    let name := decStr nm
+    let entry : Option (Entry × Bool) :=
+      if kind == "!" then none else
+      match pop.splitOn "/" with
+      | [k, sz, mt, ct, gm, ge, gt, sc] =>
+        let pi : PopInfo := { stat := { kind := decKind k, size := sz.toNat!, mtime := mt.toNat!, ctime := ct.toNat! },
+                              guess := (decOpt gm, decOpt ge), gtype := decStr gt, sidecars := decSidecars sc }
+        let e1 := populateWith Generated.eaexts Generated.defaultMime pi { selector := base ++ [47] ++ name }
+        let e2 := match decOpt nover with | some n => { e1 with name := some n } | none => e1
+        some (e2, kind == "F")
+      | _ => none
+    some { name := name, isDir := decBool isd, entry := entry, stripped := decStr stripped,
+           cap := decLines cap, lines := decLines lines }
+  | _ => none
 
 def viewOf (s : String) : View :=
   match s with
@@ -155,6 +179,39 @@ def step (fields : List String) : String :=
        match gplusBlocks ⟨decStr srvName, srvPort.toNat!⟩ Generated.gplusAdmin none e2 with
        | some b => encStr b
        | none => "CRASH-RENDER")
+  | ["dirlisting", view, gplusReq, umn, srvName, srvPort, dirSel, absH, absE, selfPop, kids] =>
+    let ds := decStr dirSel
+    let base := if ds == [47] then [] else ds
+    (match parseRegex Generated.ignorePatt with
+     | none => "REGEX-UNSUPPORTED"
+     | some alts =>
+       let children := if kids == "~" then [] else (kids.splitOn " ").filterMap (decChild base)
+       match dirListing { ignore := alts, extstrip := Generated.extstrip, umn := decBool umn } ds children with
+       | none => "CRASH-LISTING"
+       | some es =>
+         let self : Entry :=
+           match (decPop selfPop).head? with
+           | some (_, pi) => populateWith Generated.eaexts Generated.defaultMime pi { selector := ds }
+           | none => { selector := ds }
+         match listingBody (mkRenderCfg (decStr srvName) srvPort.toNat! (decBool absH) (decStr absE))
+                 (viewOf view) (decBool gplusReq) self es with
+         | none => "CRASH-RENDER"
+         | some b => encStr b)
+  | ["research", s] =>
+    (match parseRegex Generated.ignorePatt with
+     | none => "REGEX-UNSUPPORTED"
+     | some alts => encBool (reSearch alts (decStr s)))
+  | ["linkfile", dirSel, capPath, lines] =>
+    let ds := decStr dirSel
+    let base := if ds == [47] then [] else ds
+    let ls := decList lines
+    (match processLinkFile ds base (decOpt capPath) (ls.length + 1) ls with
+     | none => "CRASH"
+     | some es => ";".intercalate (es.map fun l =>
+         "\t".intercalate [encStr l.e.selector, encOpt l.e.type, encOpt l.e.name, encOpt l.e.host,
+           (match l.e.port with | some p => toString p | none => "!"),
+           (match l.e.num with | some p => toString p | none => "!"), encBool l.needsmerge,
+           encOpt (l.e.getea (lit "ABSTRACT"))]))
   | ["skeleton", st, page] =>
     let (s, k) := run (tstateOf st) (decStr page)
     (match s with | .text => "text" | .tag => "tag" | .attrDq => "dq" | .attrSq => "sq") ++ "\t" ++ encStr k
